@@ -5,19 +5,19 @@
 # redirected to /tmp/mutout. Prints one line per check: DETECTED / MISSED / MACHINERY.
 set -u
 PATCH="$1"; shift
-W=/tmp/confirm; ALT=/tmp/nvc-alt; OUT=/tmp/mutout
+W=${MUT_W:-/tmp/confirm}; ALT=${MUT_ALT:-/tmp/nvc-alt}; OUT=${MUT_OUT:-/tmp/mutout}; TGT=${MUT_TGT:-/tmp/nvc-alt-target}
 git -C $W checkout -q -- . && git -C $W clean -fdq -e target
 if [ "$PATCH" != "none" ]; then git -C $W apply "$PATCH" || { echo "PATCH DOES NOT APPLY"; exit 3; }; fi
 rm -rf $ALT && mkdir -p $ALT $OUT/evidence && cp -r /verif/nvc/vsched /verif/nvc/nvc /verif/nvc/Cargo.toml /verif/nvc/Cargo.lock /verif/nvc/.cargo $ALT/
 sed -i "s#path = \"/repo/#path = \"$W/#" $ALT/nvc/Cargo.toml
 sed -i "s#path = \"../shims/lock_api\"#path = \"/verif/shims/lock_api\"#" $ALT/Cargo.toml
-sed -i "s#target-dir = \"/verif/target\"#target-dir = \"/tmp/nvc-alt-target\"#" $ALT/.cargo/config.toml
+sed -i "s#target-dir = \"/verif/target\"#target-dir = \"$TGT\"#" $ALT/.cargo/config.toml
 cp /verif/known_findings.json $OUT/
 TIER="${MUT_TIER:-quick}"
 for ID in "$@"; do
   BIN=$(echo $ID | tr A-Z a-z)
   ( cd $ALT && CARGO_NET_OFFLINE=true cargo build --release --offline --bin $BIN ) > $OUT/build-$ID.log 2>&1 || { echo "$ID MACHINERY(build failed)"; tail -5 $OUT/build-$ID.log; continue; }
-  VERIF_DIR=$OUT VERIF_SCRATCH=/dev/shm LD_PRELOAD=/verif/envshim/envshim.so /tmp/nvc-alt-target/release/$BIN --tier $TIER > $OUT/run-$ID.log 2>&1
+  VERIF_DIR=$OUT VERIF_SCRATCH=/dev/shm LD_PRELOAD=/verif/envshim/envshim.so $TGT/release/$BIN --tier $TIER > $OUT/run-$ID.log 2>&1
   rc=$?
   sigs=$(grep "signature:" $OUT/run-$ID.log | sort | uniq -c | tr '\n' ';')
   case $rc in 0) echo "$ID MISSED (exit 0)";; 1) echo "$ID DETECTED: $sigs";; *) echo "$ID MACHINERY(exit $rc): $(grep MACHINERY $OUT/run-$ID.log | head -2)";; esac
